@@ -78,11 +78,18 @@ struct RootCase {
 }
 
 fn build_root(cw20: bool, fee: Fee3) -> RootCase {
+    build_root_sized(cw20, fee, 1_000_000)
+}
+
+/// shares with digits down to the 18th decimal (1/300, 1/7000, 1/3000)
+pub const FINE_FEES: Fee3 = Fee3::new(ONE18 / 300, ONE18 / 7000, ONE18 / 3000);
+
+fn build_root_sized(cw20: bool, fee: Fee3, first: u128) -> RootCase {
     let mut w = World::new();
-    let r = VaultRoot { label: "c06".into(), cw20, fees: fee, first: 1_000_000, pre_loan: true };
+    let r = VaultRoot { label: "c06".into(), cw20, fees: fee, first, pre_loan: true };
     let h = deploy_vault(&r, &mut w);
     vault_deposit(&mut w, &h, ALICE, r.first).expect("first deposit");
-    direct_loan(&mut w, &h, &fee, 400_000, &[Step::Repay(RepayKind::Exact)]).expect("pre loan");
+    direct_loan(&mut w, &h, &fee, first * 2 / 5, &[Step::Repay(RepayKind::Exact)]).expect("pre loan");
     // the adversary owns vault shares it can withdraw inside a callback
     let msgs = compile(&h, &fee, 0, &[Step::Deposit(5000)]);
     // (tolerated if it fails: the scripts that withdraw shares then simply revert; a vault that refuses deposits after a
@@ -322,6 +329,17 @@ pub fn run(tier: &str, seed: u64) -> i32 {
             }
         }
     }
+    // a large vault (1e13) with fine-grained fee shares: loans of billions of units, where a share truncated to fewer
+    // decimals changes the floor (both tiers, short scripts)
+    {
+        let short = scripts(1, 1, &[1000]);
+        roots.push(build_root_sized(false, FINE_FEES, 10_000_000_000_000));
+        for a in [3_000_000_007u128, 1_000_000_000_000] {
+            for s in &short {
+                cases.push(Case { root: roots.len() - 1, amount: a, script: s.clone() });
+            }
+        }
+    }
     let res = par_index_with(cases.len(), 3, World::new, |i, cx, w| {
         let c = &cases[i];
         run_case(w, &roots[c.root], c.amount, &c.script, cx);
@@ -398,7 +416,8 @@ pub fn replay(doc: &Value) -> bool {
     } else {
         let g = |k: &str| p["fee"][k].as_str().unwrap().parse::<u128>().unwrap();
         let fee = Fee3::new(g("protocol"), g("flash"), g("burn"));
-        let rc = build_root(cw20, fee);
+        // (the fine-grained fee triple only occurs on the large vault)
+        let rc = if fee.protocol == FINE_FEES.protocol && fee.swap == FINE_FEES.swap { build_root_sized(cw20, fee, 10_000_000_000_000) } else { build_root(cw20, fee) };
         let amount: u128 = p["amount"].as_str().unwrap().parse().unwrap();
         let script: Vec<Step> = serde_json::from_value(p["script"].clone()).unwrap();
         println!("direct loan {} script {:?} fee {:?} cw20 {}", amount, script, fee, cw20);
